@@ -84,6 +84,16 @@ class PrettyPrinter:
 
         return False
 
+    def __check_pair_value(self, key: str, value: Any) -> None:
+        """
+        The values of METADATA-style blocks and of CONFIG are strings or numbers
+        """
+        if isinstance(value, (dict, list, tuple)):
+            # e.g. an empty dict created by reading a missing key of the block
+            raise ValueError(
+                f"The key {key} has a {type(value).__name__} as a value - it cannot be written as a Mapfile string"
+            )
+
     def compute_aligned_max_indent(self, max_key_length: int) -> int:
         """
         Computes the indentation as a multiple of self.indent for aligning
@@ -184,6 +194,7 @@ class PrettyPrinter:
 
         for k, v in d.items():
             if not self.__is_metadata(k):
+                self.__check_pair_value(k, v)
                 qk = self.quoter.add_quotes(k)
                 qv = self.quoter.add_quotes(v)
                 line = self.__format_line(
@@ -202,6 +213,7 @@ class PrettyPrinter:
         for k, v in d.items():
             if self.__is_metadata(k):
                 continue
+            self.__check_pair_value(k, v)
             cfg_val = self.quoter.add_quotes(k.upper())
             k = f"CONFIG {cfg_val}"
             v = self.quoter.add_quotes(v)
